@@ -24,6 +24,8 @@ def main():
             ip.contracts[u.contract.qual] = u.contract
     for c in chk.stubs:
         ip.contracts[c.qual] = c
+    for q, c in getattr(r, 'call_site_overrides', {}).items():
+        ip.contracts[q] = c
     if qual.startswith('lemma:'):
         prove_lemmas(ip, r.specs, {qual[6:]})
     else:
@@ -36,7 +38,7 @@ def main():
     discharge(obls, r.specs, ip, keep='/tmp/pyvc_debug', timeout=timeout)
     for i, o in enumerate(obls):
         print(i, o.name, o.result['verdict'], o.result['attempts'])
-        if '--show' in sys.argv:
+        if '--show' in sys.argv or ('--show-bad' in sys.argv and o.result['verdict'] != 'unsat'):
             s = z3.Solver()
             s.from_string(o.smt2)
             for a in s.assertions():
